@@ -479,7 +479,7 @@ class HistoryGen:
             targets = tuple(rng.sample(tars, nt))
             # (a target listed twice - one location driven through two weights - is not generated: the unmodified
             #  library books a repeated entry twice on register but removes a reader's edge once, see DESIGN section 9)
-            weights = tuple(rng.choice([0.5, 1.0, 2.0, -1.5, 0.25]) for _ in range(nt))
+            weights = tuple(rng.choice([0.5, 1.0, 2.0, -1.5, 0.25, 0.0]) for _ in range(nt))      # 0.0: a target the knob lists but does not move
             self.tcount += 1
             return ("regk", "k%d%s" % (self.tcount, self.cfg["salt"]), s, weights, targets)
         if kind == "unregk":
